@@ -248,11 +248,13 @@ def main():
     wall = time.time() - t0
     # ---- second solver on exported queries (thorough) ---------------------------------
     e2 = None
-    if tier == "thorough" and any(ag.smt for ag in aggs):
+    if (tier == "thorough" or os.environ.get("VERIF_E2")) and any(ag.smt for ag in aggs):
         from vf import e2 as e2mod
-        e2 = e2mod.recheck([(ag.job["label"], lab, txt) for ag in aggs for lab, txt in ag.smt])
+        e2 = e2mod.recheck([(ag.job["label"],) + tuple(x) for ag in aggs for x in ag.smt])
         if e2["disagreements"]:
             problems.append("second solver disagrees on %d queries" % e2["disagreements"])
+        if e2["errors"]:
+            problems.append("second solver reported errors on %d exported queries (encoding not accepted): %s" % (e2["errors"], str(e2["details"][:1])[:300]))
     # ---- report ---------------------------------------------------------------------------
     seen_kf = set()
     for k in known_hits:
